@@ -648,7 +648,15 @@ func GetLatestEntry(storer gitstore.Storer) (Entry, error) {
 		return nil, err
 	}
 
-	return GetEntry(storer, commitID)
+	entry, err := GetEntry(storer, commitID)
+	if err != nil && errors.Is(err, ErrRSLEntryNotFound) {
+		// The RSL reference exists, so its tip must be readable. Failing to
+		// read it is a storage error and must not be mistaken for an empty
+		// RSL (which would, for example, restart entry numbering at 1).
+		return nil, fmt.Errorf("unable to read latest RSL entry '%s': %s", commitID.String(), err.Error())
+	}
+
+	return entry, err
 }
 
 // GetLatestReferenceUpdaterEntry returns the latest reference updater entry in
